@@ -106,6 +106,9 @@ def san_summary(text):
     m = re.search(r"([\w./-]+):(\d+):\d*:? runtime error: (.*)", text)
     if m:
         return "ubsan:%s:%s" % (os.path.basename(m.group(1)), re.sub(r"[-\d]+", "N", m.group(3))[:60])
+    m = re.search(r"Fatal failure in matching insn:\s*(\w+)", text)  # target code generator gives up and exits
+    if m:
+        return "gen-fatal:no-pattern-for:%s" % m.group(1)
     m = re.search(r"(\S+): ([\w./-]+):(\d+): (\w+): Assertion `(.*)' failed", text)
     if m:
         return "assert:%s:%s" % (os.path.basename(m.group(2)), m.group(4))
